@@ -1,5 +1,6 @@
-From DV Require Import PktLine.
+From DV Require Import PktLine Caps.
 Require Extraction.
 Require Import ExtrOcamlBasic.
 Extraction "model.ml" pkt_line pkt_seq parse_len read_pkt_line read_pkt_seq seq_fuel
-  rp_read rp_read_pkt_line pp_feed write_sideband sb_fuel sb_demux bw_run.
+  rp_read rp_read_pkt_line pp_feed write_sideband sb_fuel sb_demux bw_run
+  format_ref_line extract_capabilities format_want_line extract_want_line_capabilities.
